@@ -795,12 +795,14 @@ func (pr *printer) par(p *ParP) string {
 				ctxArg = "ctx"
 			}
 			var call string
+			foldLeft := ""
 			if c.Map {
 				params = append(params, "k "+info.keyT, "v "+info.elemT)
 				call = fmt.Sprintf("%%s.Elem(%d, %s, int64(k), %s(v))", c.ID, ctxArg, info.unE)
 			} else if c.Index {
 				params = append(params, "i int", "v "+info.elemT)
 				call = fmt.Sprintf("%%s.Elem(%d, %s, int64(i), %s(v))", c.ID, ctxArg, info.unE)
+
 			} else {
 				params = append(params, "v "+info.elemT)
 				call = fmt.Sprintf("%%s.Elem(%d, %s, -1, %s(v))", c.ID, ctxArg, info.unE)
@@ -808,9 +810,9 @@ func (pr *printer) par(p *ParP) string {
 			sig := "(" + strings.Join(params, ", ") + ")"
 			body := func(h string) string {
 				if c.Err {
-					return "\treturn " + fmt.Sprintf(call, h) + "\n"
+					return foldLeft + "\treturn " + fmt.Sprintf(call, h) + "\n"
 				}
-				return "\t" + fmt.Sprintf(call, h) + "\n"
+				return foldLeft + "\t" + fmt.Sprintf(call, h) + "\n"
 			}
 			if c.Err {
 				sig += " error"
